@@ -4,12 +4,14 @@ PROP = {
     "assumptions": [
         "inputs run in child processes that log each case before executing it, so a crash is attributed to exactly one input",
         "allocation proportionality is measured as the runtime's TotalAlloc delta of the call in an otherwise idle child: bound 4 MiB + 64 x input bytes (endpoints: + 48 MiB for the QUIC connections living in the same process)",
-        "'input has ended' for endpoints means the scripted peer closed its streams and the connection",
+        "'input has ended' for endpoints means the scripted peer closed its streams and the connection; in the stream-end classes it means that the stream the endpoint is reading a record from was ended by the peer (FIN or reset) inside that record while the other streams stay open: a data stream ending inside a chunk payload and the acknowledgement stream ending must make the endpoint return; a data stream ending inside a frame header or between frames is only judged once everything is closed (the receiver may legitimately wait for the next control record)",
+        "the application-like option set is a copy of the closures in snapshot_receiver.go / snapshot_sender.go runTransfer (overlay/internal/app/zz_verif_export_c15.go) calling the real progress objects; the receiving CLI's UI renderer and signaling are not part of it",
+        "histories of the field-aware classes are reached on logical events (hook recv.chunk.afterMark before the ResumeRequest is written; the receiver's own resume report showing chunk 0 complete), and a run in which they were not reached is inconclusive",
     ],
     "timeout": 3400,
 }
 META = {
-    "technique": "runtime monitor: generated/mutated protocol input into the real decoders and endpoints in crash-attributing child processes; oracles: process death, recovered panic, watchdog after end of input, TotalAlloc proportionality",
-    "text": "Exploration with generated and mutated inputs: every valid control record, the control header, the legacy receivers' headers, the dumb receiver header and sidecar files are truncated at every byte, have every field position overwritten with boundary values, get unknown type bytes, plus seeded random bytes; a recorded valid trace is replayed with the same mutations against the real RecvManifestMultiStream and SendManifestMultiStream over QUIC at every protocol stage. Each input must yield a prompt return without panic, process death or out-of-proportion allocation.",
-    "note": "Trusted: Go runtime MemStats, the child-process attribution log. Peers that stay silent without closing are not 'ended input' and are not judged here.",
+    "technique": "runtime monitor: generated/mutated/field-aware protocol input into the real decoders and into the real endpoints (library, application-like and empty option sets) in crash-attributing child processes; oracles: process death, recovered panic, watchdog with canary after end of input (also: one stream ended inside a record, others open), TotalAlloc proportionality",
+    "text": "Exploration with generated and mutated inputs: every valid control record, the control header, the legacy receivers' headers, the dumb receiver header and sidecar files are truncated at every byte, have every field position overwritten with boundary values and every enumeration/flag byte swept, get unknown type bytes, plus seeded random bytes; a recorded valid trace is replayed with the same mutations against the real RecvManifestMultiStream and SendManifestMultiStream over QUIC at every protocol stage, under the library options and under the option set the application passes (all callbacks installed); every peer-chosen enumeration/flag byte (FileBegin.HashAlg, record type, FileDone.OK) and the resume report's counts are set to boundary values (thorough: all 256) in the history in which the endpoint consumes them (fresh file, chunk stored then ResumeRequest, sidecar of an interrupted earlier session); data and acknowledgement streams are ended inside records while the other streams stay open. Each input must yield a prompt return without panic, process death or out-of-proportion allocation.",
+    "note": "Trusted: Go runtime MemStats, the child-process attribution log, the verifhook point recv.chunk.afterMark. Peers that stay silent without ending any stream are not 'ended input' and are not judged here. The unused RecvManifestMultiStreamLegacy endpoint is not driven.",
 }
